@@ -23,6 +23,7 @@ def gen_cases(rng, tier, ctx):
     cs += gen.constant_cases(rng, tier)
     cs += gen.limit_cases(rng, tier)
     cs += gen.block_border_cases(rng, tier)
+    cs += gen.adjacent_capacity_cases(rng, tier)
     cs += corpus.encoder_cases()
     cs += gen.prefix_cases(rng, tier)
     # padding sweep
